@@ -301,7 +301,7 @@ def _usable(attr):
     return attr.isidentifier() and not keyword.iskeyword(attr)
 
 
-def observe_props(names, req):
+def observe_props(names, req, generate=True):
     """parse an object schema with these property names; read the class back, generate code,
     execute it, read the generated class back"""
     from statham.schema.parser import parse_element
@@ -317,7 +317,7 @@ def observe_props(names, req):
     except Exception as exc:  # noqa
         ob["err"] = f"parse: {type(exc).__name__}: {exc}"[:160]
         return ob
-    if all(_usable(a) for a, _, _ in ob["props"]):
+    if generate and all(_usable(a) for a, _, _ in ob["props"]):
         try:
             code = serialize_python(cls)
         except Exception as exc:  # noqa
@@ -343,7 +343,8 @@ def replay_name(st):
         except Exception as exc:  # noqa
             res.append(dict(s=s, exp=exp, real=None, err=f"{type(exc).__name__}: {exc}"[:160]))
             continue
-        ob = observe_props([s], [])
+        # the generated module is rebuilt under map 0, and under every map for short names
+        ob = observe_props([s], [], generate=(mi == 0 or len(name) <= 2))
         res.append(dict(s=s, exp=exp, real=real, props=ob["props"], gen=ob["gen"], err=ob["err"]))
     return res
 
